@@ -546,7 +546,7 @@ def _check_bs(ctx: Ctx, case, mb: MB) -> None:
         if near_pi(d64[b]):
             ctx.count("bs.skip.nearpi")
             continue
-        if L > case.get("model_cap", 400):
+        if L > case.get("model_cap", 150 if ctx.quick else 400):
             continue
         qt, tt = bs_tols(eps, d64[b], us)
         got = y64[b]
@@ -681,9 +681,9 @@ def sweep_bs_cases(ctx: Ctx):
         for ex in (True, False):
             if not ex and N < 4:
                 continue
-            out.append({"kind": "bs", "dtype": "float64" if (N + ex) % 4 else "float32", "N": N, "batch": [] if N % 3 else [2],
+            out.append({"kind": "bs", "dtype": "float64" if (N + ex) % 4 else "float32", "N": N, "batch": [] if N % 6 else [2],
                         "interval": 0.5 if N % 2 else 0.4, "extrapolate": ex, "gen": "twist" if N % 2 else "walk",
-                        "rot": [0.3, 1.0, 2.0][N % 3], "tscale": 1.0, "flip": False, "continuity": 1 if N % 5 == 0 else 0,
+                        "rot": [0.3, 1.0, 2.0][N % 3], "tscale": 1.0, "flip": False, "continuity": 1 if N % 10 == 0 else 0,
                         "model_cap": 24, "seed": rng.randrange(1 << 30)})
     return out
 
@@ -1127,9 +1127,10 @@ def svd_T(ctx, case, B, ir, ie, with_scale):
     s, Rm, t, D = R.umeyama(est, ref, with_scale)
     c_np = R.align_cost(s, Rm, t, est, ref)
     c_im = R.align_cost(T[7], R.rot_from_quat(T[3:7]), T[:3], est, ref)
-    sc = float(((ref - ref.mean(0)) ** 2).sum() + (T[7] ** 2) * ((est - est.mean(0)) ** 2).sum() + (np.abs(ref).max() * EPS64 * 16) ** 2) + 1e-300
-    # rounding of the cost itself only: residuals carry ~eps*scale absolute noise -> 64 eps sqrt(cost*sc) + (32 eps)^2 sc
-    if not c_im <= c_np + 64 * EPS64 * math.sqrt(c_np * sc) + (32 * EPS64) ** 2 * sc * len(est):
+    sc = float((ref ** 2).sum() + (T[7] ** 2) * (est ** 2).sum()) + 1e-300
+    # rounding only: the returned quaternion/translation are rounded to eps, which moves every transformed point by ~eps*|s R x|
+    # -> cost changes by <= 2 sqrt(cost * sc) * k eps + (k eps)^2 sc (no term proportional to sc alone at first order)
+    if not c_im <= c_np + 256 * EPS64 * math.sqrt(c_np * sc) + (64 * EPS64) ** 2 * sc * len(est):
         ctx.fail(pub(case), f"svdstf-contract: svdstf alignment cost {c_im:.6e} exceeds the optimum {c_np:.6e} (with_scale={with_scale}, {len(est)} points)")
     cond = float(D[1] / D[0]) if D[0] > 0 else 0.0
     return T, cond
@@ -1594,7 +1595,7 @@ def corpus_traj():
             i += 1
     for r_i, ratio in enumerate(SPACING_RATIOS):           # kind 18: spacing / max_diff ladder x stamp kinds x offsets
         for s_i, stamps in enumerate(["after", "before", "jitter", "sub", "extra", "unmatched"]):
-            if (r_i + s_i) % 2 and ratio > 2.5:
+            if (r_i + s_i) % 2:
                 continue
             diff = [0.01, 0.8, 0.05][(r_i + s_i) % 3]
             c.append(traj_case(i, M=10 + (r_i * 7 + s_i * 3) % 17, dt=ratio * diff, diff=diff, stamps=stamps,
@@ -2134,9 +2135,13 @@ def run_pass2(ctx: Ctx):
         p_in = src.clone()
         o1 = P.chspline(p_in, 0.3)
         keep = o1.clone()
-        o1[0, 0, :] += 7.0
-        o1[1].mul_(0.0)
         ctx.note_case(("pass2", "ownmem", label), True)
+        try:
+            o1[0, 0, :] += 7.0
+            o1[1].mul_(0.0)
+        except RuntimeError as e:
+            ctx.fail(c, f"ownmem: chspline's result cannot be written in place — its elements overlap in memory ({label}): {excs(e)}")
+            continue
         if not torch.equal(p_in, src):
             ctx.fail(c, f"ownmem: writing into chspline's result changed the input points (the result aliases its argument; {label})")
         if not (torch.equal(o1[2], keep[2]) and torch.equal(o1[0, 1:], keep[0, 1:])):
@@ -2149,9 +2154,13 @@ def run_pass2(ctx: Ctx):
         x_in = P.SE3(Xd_.clone())
         o1 = P.bspline(x_in, 0.4, ex)
         keep = o1.tensor().clone()
-        o1.tensor()[0, 0, :] = 0.0
-        o1.tensor()[1].mul_(0.0)
-        o1.tensor()[..., -1, :] += 1.0
+        try:
+            o1.tensor()[0, 0, :] = 0.0
+            o1.tensor()[1].mul_(0.0)
+            o1.tensor()[..., -1, :] += 1.0
+        except RuntimeError as e:
+            ctx.fail(c, f"ownmem: bspline's result cannot be written in place — its elements overlap in memory: {excs(e)}")
+            continue
         if not torch.equal(x_in.tensor(), Xd_):
             ctx.fail(c, "ownmem: writing into bspline's result changed the input poses (the result aliases its argument)")
         chk = o1.tensor()
